@@ -16,6 +16,7 @@ import BRV.Proofs.RepoBasics
 import BRV.Proofs.RepoTrim
 import BRV.Proofs.RepoExample
 import BRV.Props.C01
+import BRV.Props.C12
 import BRV.Proofs.LoadIds
 
 namespace BRV.Repo
@@ -257,5 +258,21 @@ theorem C17_marked_excluded_after_load (r0 : Repo) (depth : Int) (hd : 0 ≤ dep
 /-- the executable tests of the two hypotheses are sound (the driver evaluates them on every loaded image). -/
 theorem C17_image_tests_sound (s : Store) (h1 : storeOKb s = true) (h2 : storeUniqB s = true) : StoreOK s ∧ StoreUniq s :=
   ⟨storeOKb_sound s h1, storeUniqB_sound s h2⟩
+
+/-! non-vacuity of the loaded-state theorems: the image a Save of the forked repository `exFork` (Props/C12) wrote
+    passes both executable tests; on the repository loaded from it a submission, a mark on the best chain and an
+    unmark form a history in the sense of `FHist`; the mark succeeds and the tip falls back. -/
+def exGenesisHdr : Hdr := { id := 0, prev := 99, bits := 0x1d00ffff, time := 1 }
+def exLoaded : Repo := (load (save exFork).1 10 exGenesisHdr).1
+def exH20 : Hdr := { id := 20, prev := 4, bits := 0x1d00ffff, time := 6 }
+
+example : storeOKb (save exFork).1.store = true ∧ storeUniqB (save exFork).1.store = true := by decide
+
+example : FHist exLoaded [.submit exH20 true, .mark 3, .unmark 3] :=
+  ⟨⟨by decide, fun hne => absurd (by rfl) hne⟩,
+   ⟨Option.isNone_iff_eq_none.mp (by decide), ⟨trivial, trivial⟩⟩⟩
+
+example : tipId ([FOp.submit exH20 true].foldl applyF exLoaded) = 20 ∧
+    tipId ([FOp.submit exH20 true, .mark 3].foldl applyF exLoaded) = 2 := by decide
 
 end BRV.Repo
